@@ -204,6 +204,12 @@ def w_roland(pid, tier, seed, job):
             cases.append(("fat[%d]=%d" % (c, v), {"fat": {c: v}}))
     for c, v in [(12, 11), (12, 12), (12, 10), (16, 15), (11, 10)]:
         cases.append(("rho fat[%d]=%d" % (c, v), {"fat": {c: v}}))
+    # loop points / leading-cluster offsets that make a sample's window empty, negative or out of its chain
+    for mode in (5, 6, 0, 1):
+        cases.append(("window end<start mode %d" % mode, {"sample": dict(loop_mode=mode, start=3000, sustain_end=100, release_end=50)}))
+        cases.append(("window empty mode %d" % mode, {"sample": dict(loop_mode=mode, start=200, sustain_end=199, release_end=199)}))
+    for top in (1, 3, 4, 200):
+        cases.append(("cluster_top=%d" % top, {"sample": dict(cluster_top=top)}))
     for _ in range(6 if tier == "quick" else 60):
         cases.append(("random-fat", {"fat": {rng.choice(clusters + [rng.randrange(2, 200)]): rng.choice(clusters + [0, 1, 0xFFF8, rng.randrange(65536)]) for _ in range(rng.randint(1, 3))}}))
     for _ in range(10 if tier == "quick" else 80):
@@ -213,9 +219,16 @@ def w_roland(pid, tier, seed, job):
             cases.append(("idarea[%d]=%d" % (off, val), {"bytes": [(off, struct.pack("<H", val))]}))
     if tier == "quick":
         rng2 = random.Random(job + 7)
-        cases = [c for c in cases if c[0].startswith("rho") or rng2.random() < 0.35]
+        cases = [c for c in cases if c[0].startswith("rho") or c[0].startswith("window") or rng2.random() < 0.35]
     for tag, spec in cases:
-        d2 = W.simple_disk([W.Sample(s.name, s.pcm, loop_mode=s.loop_mode, chain=list(s.chain)) for s in smp])
+        smp2 = [W.Sample(s.name, s.pcm, loop_mode=s.loop_mode, chain=list(s.chain)) for s in smp]
+        if "sample" in spec:
+            big = W.Sample("BIG", W.tone(6000, 9), chain=[40, 41, 42], **{k: v for k, v in spec["sample"].items() if k != "cluster_top"})
+            if "cluster_top" in spec["sample"]:
+                big.cluster_top = spec["sample"]["cluster_top"]
+                big.par_num_clusters = 1
+            smp2.append(big)
+        d2 = W.simple_disk(smp2)
         if "fat" in spec:
             d2.fat_overrides.update(spec["fat"])
         data = bytearray(W.image_bytes(d2))
